@@ -57,4 +57,7 @@ class FileStorage(object):
 
     # Method returning a map
     def map(self):
+        # Buffered writes must reach the file before it is mapped
+        self.file.flush()
+
         return MemMapStorage(self.block_size, self.file)
